@@ -49,7 +49,7 @@ func init() {
 		CaseTimeout: 240 * time.Second,
 		Run:         runC14,
 		Floors: func(tier string) map[string]int {
-			m := map[string]int{"syncs_judged": 300, "uploads_seen": 150, "restores_seen": 20, "converged_identical": 80, "adopted_service": 20, "hwm_samples": 1000, "client_file": 20, "client_cloud": 20, "batches_over_256": 2, "lost_ack_then_converged": 4, "snapshot_uploads": 20, "background_converged": 4, "fresh_primary_adopted_existing_service": 2, "background_outage_batches": 2, "commit_inside_snapshot_upload": 1, "rel_stale-hwm": 4}
+			m := map[string]int{"syncs_judged": 300, "uploads_seen": 150, "restores_seen": 20, "converged_identical": 80, "adopted_service": 20, "hwm_samples": 1000, "client_file": 20, "client_cloud": 20, "batches_over_256": 2, "lost_ack_then_converged": 4, "snapshot_uploads": 20, "background_converged": 4, "fresh_primary_adopted_existing_service": 2, "background_outage_batches": 2, "commit_inside_snapshot_upload": 1, "rel_stale-hwm": 4, "replica_hwm_followed_restore": 2}
 			for _, r := range c14Relations {
 				m["rel_"+r] = 3
 			}
@@ -979,7 +979,7 @@ func runC14(c *core.Case) {
 		} else if rel == "big-batch" && c.Tier != "thorough" {
 			rel = "behind"
 		}
-		if round == 1 && c.Index%8 == 3 {
+		if round == 1 && (c.Index%8 == 3 || c.Index%8 == 6) {
 			rel = "stale-hwm"
 		}
 		hist = append(hist, rel)
@@ -1012,9 +1012,40 @@ func runC14(c *core.Case) {
 				c.Violate("C14/setup", "reattach writer: "+err.Error(), detail(nil))
 				return
 			}
+			replicaCaughtUp := false
+			if withReplica {
+				// (the replica first follows the restore - by snapshot, which carries no
+				// high-water mark - so that the next commits reach it as ordinary
+				// transaction frames, each followed by the primary's current mark)
+				replicaCaughtUp, _, _ = cl.WaitConverged(cl.Nodes[0], cl.Nodes[1], []string{"db"}, 12, 30*time.Second)
+			}
 			if err := commitN(P, 2); err != nil {
 				c.Violate("C14/commit-failed", fmt.Sprintf("%s: %v", rel, err), detail(nil))
 				return
+			}
+			if withReplica && replicaCaughtUp {
+				// the primary lowered its high-water mark when it was restored; once the
+				// replica has received the transactions committed since, the mark it holds
+				// must not be above what the service holds either (a replica is the next
+				// primary, and retention works from that mark)
+				if ok, _, _ := cl.WaitConverged(cl.Nodes[0], cl.Nodes[1], []string{"db"}, 12, 30*time.Second); ok {
+					svcPos := c14ChainOf(svc.files("db")).pos
+					var rh uint64
+					for i := 0; i < 400; i++ {
+						if rdb := cl.Nodes[1].Store.DB("db"); rdb != nil {
+							rh = uint64(rdb.HWM())
+						}
+						if rh <= svcPos.TXID {
+							break
+						}
+						time.Sleep(5 * time.Millisecond)
+					}
+					if rh > svcPos.TXID {
+						c.Violate("C14/replica-hwm-above-service", fmt.Sprintf("the replica's high-water mark is %d while the service holds the database only up to %s (the primary publishes %d)", rh, svcPos, uint64(P.n.Store.DB("db").HWM())), detail(nil))
+						return
+					}
+					c.Count("replica_hwm_followed_restore", 1)
+				}
 			}
 			time.Sleep(2 * time.Millisecond)
 			_ = P.n.Store.EnforceRetention(context.Background())
